@@ -448,10 +448,8 @@ impl SecretKey {
     /// packet header in sync with the body, like the other packet mutators do.
     fn update_packet_header_len(&mut self) -> Result<()> {
         let len = crate::ser::Serialize::write_len(self).try_into()?;
-        if let crate::types::PacketLength::Fixed(packet_len) =
-            self.packet_header.packet_length_mut()
-        {
-            *packet_len = len;
+        if let crate::types::PacketLength::Fixed(_) = self.packet_header.packet_length() {
+            self.packet_header.set_fixed_length(len);
         }
         Ok(())
     }
@@ -523,10 +521,8 @@ impl SecretSubkey {
     /// packet header in sync with the body, like the other packet mutators do.
     fn update_packet_header_len(&mut self) -> Result<()> {
         let len = crate::ser::Serialize::write_len(self).try_into()?;
-        if let crate::types::PacketLength::Fixed(packet_len) =
-            self.packet_header.packet_length_mut()
-        {
-            *packet_len = len;
+        if let crate::types::PacketLength::Fixed(_) = self.packet_header.packet_length() {
+            self.packet_header.set_fixed_length(len);
         }
         Ok(())
     }
